@@ -338,13 +338,28 @@ def _stored_names(program: Program, recv: ClassInfo, attr: str) -> set[str] | No
 def _alias_none_guard(guards: tuple, program: Program | None = None, func: str = "") -> bool:
     """one of the enclosing tests requires `<x>.alias is None` / `not <x>.alias`; a test that calls a predicate helper
     (`if self._rejoins_unaliased_table(join.item, ...)`) is read through the helper's returned expression"""
+    def nnf(t, neg=False):
+        """negation pushed inwards (De Morgan; `not (x is not None)` is `x is None`), so a guard clause
+        `if not A or x.alias is not None: return` reads as `A and x.alias is None` for what follows it"""
+        if isinstance(t, ast.UnaryOp) and isinstance(t.op, ast.Not):
+            return nnf(t.operand, not neg)
+        if isinstance(t, ast.BoolOp):
+            op = t.op
+            if neg:
+                op = ast.Or() if isinstance(op, ast.And) else ast.And()
+            return ast.BoolOp(op=op, values=[nnf(v, neg) for v in t.values])
+        if neg and isinstance(t, ast.Compare) and len(t.ops) == 1 and isinstance(t.ops[0], (ast.Is, ast.IsNot, ast.Eq, ast.NotEq)):
+            flip = {ast.Is: ast.IsNot, ast.IsNot: ast.Is, ast.Eq: ast.NotEq, ast.NotEq: ast.Eq}[type(t.ops[0])]
+            return ast.Compare(left=t.left, ops=[flip()], comparators=t.comparators)
+        return ast.UnaryOp(op=ast.Not(), operand=t) if neg else t
+
     def conj_of(t):
         if isinstance(t, ast.BoolOp) and isinstance(t.op, ast.And):
             return [c for v in t.values for c in conj_of(v)]
         return [t]
 
     def holds(t, depth=0) -> bool:
-        for c in conj_of(t):
+        for c in conj_of(nnf(t)):
             if (isinstance(c, ast.Compare) and len(c.ops) == 1 and isinstance(c.ops[0], ast.Is)
                     and isinstance(c.left, ast.Attribute) and c.left.attr == "alias"
                     and isinstance(c.comparators[0], ast.Constant) and c.comparators[0].value is None):
